@@ -12,24 +12,8 @@ from __future__ import annotations
 
 from io import StringIO
 
-import xv.canon as _canon
 from xv.canon import canon_attr, canon_ir, _normalise_props
 from xv.corpus import new_ctx
-
-# DESIGN 1.6 / section 5: bool payloads are ints (IntAttr(True) is the value 1).  The shared canon module
-# still distinguishes them, which also defeats its default-valued-property normalisation for i1 properties;
-# normalise here (no-op once canon.py does it itself).  Only worker processes of C04/C05 import this module.
-_orig_canon_py = _canon.canon_py
-
-
-def _canon_py_boolint(x):
-    if isinstance(x, bool):
-        return ("int", int(x))
-    return _orig_canon_py(x)
-
-
-if getattr(_canon.canon_py, "__name__", "") != "_canon_py_boolint":
-    _canon.canon_py = _canon_py_boolint
 
 _DRA = "xdsl.dialects.builtin.DenseResourceAttr"
 
